@@ -644,17 +644,48 @@ def _init_chain(repo, ci) -> Set[str]:
     return out
 
 
+_ROLE_ORDER = ['reserv', 'wellbores', 'surfaceplant', 'economics', 'addeconomics', 'sdacgteconomics']
+
+
 def _json_merged_roles(repo) -> List[str]:
-    """Roles whose OutputParameterDict main() dumps into the merged JSON, in merge order."""
+    """Roles whose OutputParameterDict main() dumps into the merged JSON: `jsons.dumps(model.<role>.OutputParameterDict)`, or the same
+    call on the variable of a loop over a list of `model.<role>` objects (list literal plus `.append(model.<role>)`).  The order is a fixed
+    canonical one, so that pairs are keyed the same way however the merge is written."""
     mi = repo.module('geophires_x/GEOPHIRESv3.py')
     out: List[str] = []
+
+    def role_of(e) -> Optional[str]:
+        parts = (dotted_name(e) or '').split('.')
+        return parts[1] if len(parts) == 2 and parts[0] == 'model' else None
+
     for n in ast.walk(mi.tree):
         if isinstance(n, ast.Call) and (dotted_name(n.func) or '').endswith('jsons.dumps') and n.args:
-            d = dotted_name(n.args[0]) or ''
-            parts = d.split('.')
-            if len(parts) == 3 and parts[0] == 'model' and parts[2] == 'OutputParameterDict':
-                out.append((n.lineno, parts[1]))
-    return [r for _, r in sorted(out)]
+            a0 = n.args[0]
+            if not (isinstance(a0, ast.Attribute) and a0.attr == 'OutputParameterDict'):
+                continue
+            r = role_of(a0.value)
+            if r is not None:
+                out.append(r)
+            elif isinstance(a0.value, ast.Name):
+                v = a0.value.id
+                p_ = parent(n)
+                while p_ is not None and not (isinstance(p_, ast.For) and isinstance(p_.target, ast.Name) and p_.target.id == v):
+                    p_ = parent(p_)
+                if p_ is None or not isinstance(p_.iter, ast.Name):
+                    continue
+                lst = p_.iter.id
+                fn = p_
+                while fn is not None and not isinstance(fn, (ast.FunctionDef, ast.Module)):
+                    fn = parent(fn)
+                for x in ast.walk(fn):
+                    if isinstance(x, ast.Assign) and len(x.targets) == 1 and norm(x.targets[0]) == lst and isinstance(x.value, (ast.List, ast.Tuple)):
+                        out.extend(r2 for r2 in (role_of(e) for e in x.value.elts) if r2)
+                    if isinstance(x, ast.Call) and isinstance(x.func, ast.Attribute) and x.func.attr == 'append' and norm(x.func.value) == lst and x.args:
+                        r2 = role_of(x.args[0])
+                        if r2:
+                            out.append(r2)
+    uniq = list(dict.fromkeys(out))
+    return [r for r in _ROLE_ORDER if r in uniq] + sorted(r for r in uniq if r not in _ROLE_ORDER)
 
 
 def check_registry(ctx) -> None:
